@@ -584,8 +584,16 @@ func (e *Env) call(x *ECall) Term {
 	vc := e.vc
 	if x.Recv != nil {
 		// Iface.Method(recv, args...) for a pure_const interface method
+		recvName := ""
 		if id, ok := x.Recv.(*EIdent); ok {
-			if sp, ok := vc.P.spec.Funcs[id.Name+"."+x.Fun]; ok && sp.PureConst {
+			recvName = id.Name
+		} else if sel, ok := x.Recv.(*ESel); ok {
+			if id, ok := sel.X.(*EIdent); ok {
+				recvName = id.Name + "." + sel.Name
+			}
+		}
+		if recvName != "" {
+			if sp, ok := vc.P.spec.Funcs[recvName+"."+x.Fun]; ok && sp.PureConst {
 				var as []Term
 				for _, a := range x.Args {
 					as = append(as, e.value(e.tr(a)))
